@@ -1,7 +1,8 @@
 """EXT: iterators, the query priority queue and two Region wrappers.
 
-  run_c06(ctx)   EdgeIterator over a ShapeIndex (spec/Iterators.tla, machine "iter") and
-                 ShapeIndexRegion bounds (spec/Gen_IterRegions.tla, modes "sir" and "scene")
+  run_c06(ctx)   EdgeIterator over a ShapeIndex (spec/Iterators.tla, machine "iter"),
+                 ShapeIndexRegion bounds (spec/Gen_IterRegions.tla, modes "sir" and "scene") and the
+                 cell iterator ShapeIndexIterator (spec/IndexIter.tla; handler p_ext_ixiter.go)
   run_c08(ctx)   queryQueue of the distance queries with both distance flavours (Iterators.tla,
                  machines "queue" and "less")
   run_c05(ctx)   RegionUnion over cells, cell unions, points, nested unions and caps
@@ -17,7 +18,7 @@ import vlib
 ITER_INV = ["IterEnumerates", "PairSeqLaws", "QueueLaws", "DrainLaws"]
 OPS = {"ext.iter": "ext/iter/run", "ext.queue": "ext/queue/run", "ext.less": "ext/queue/less",
        "ext.ru": "ext/regionunion/case", "ext.sir": "ext/shapeindexregion/cells",
-       "ext.sirscene": "ext/shapeindexregion/scene"}
+       "ext.sirscene": "ext/shapeindexregion/scene", "ext.ixiter": "ext/ixiter/case"}
 
 
 def _ops(cases):
@@ -144,9 +145,78 @@ def run_sir(ctx):
     ctx.replay(cases, timeout=1800)
 
 
+# ---------------------------------------------------------------------------------- C06/C13: ShapeIndexIterator
+def _ixiter_cfg(mode, L, NF, pool, maxcells, maxops=0):
+    return vlib.cfg(next_="NextStep", constants={"Mode": '"%s"' % mode, "L": L, "NF": NF, "Pool": set(pool), "MaxCells": maxcells,
+                                                 "MaxOps": maxops},
+                    invariants=["TypeOK", "AlgoMeetsSpec", "LocateLaws"], properties=["PosMoves"])
+
+
+def run_ixiter(ctx):
+    """spec/IndexIter.tla: the cell iterator of a ShapeIndex (Begin/End/Next/Prev/LocatePoint/LocateCellID).
+    TLC checks that the code's seek-and-compare algorithm equals the documented meaning on every antichain of the
+    pool and every target of the model world, and emits every transition of the state graph (and random walks) as
+    tests; the harness installs the cells with VerifIndexFromCells and reaches each pre-state by several routes."""
+    q = ctx.quick()
+    rnd = random.Random(ctx.seed * 3571 + 41)
+    ctx.assumptions += [
+        "index iterator: Next is called only while Done() is false; Prev/Next/CellID/Done are not used while the position is "
+        "undefined (fresh iterator without start position, LocatePoint = false, LocateCellID = Disjoint)",
+        "index iterator: the index is static; index cells are installed through the hook VerifIndexFromCells (pairwise disjoint "
+        "cells with empty contents); LocatePoint targets are the centres of model leaves",
+    ]
+    cases = []
+
+    def pool_for(L, NF, n, lvls):
+        faces = rnd.sample(range(NF), min(NF, 3))
+        pool = set()
+        f0, d0 = faces[0], rnd.randrange(4)
+        if L >= 2:      # neighbours on the curve below one parent: the seek lands between siblings
+            for k in rnd.sample(range(4), 3):
+                pool.add(_idx(L, f0, [d0, k]))
+        pool.add(_idx(L, faces[-1], [3] * rnd.choice([1, L])))          # a last cell of a face
+        pool.add(_idx(L, faces[0], [0] * rnd.choice([1, L])))           # a first cell of a face
+        while len(pool) < n:
+            pool.add(_rand_cell(rnd, L, faces, lvls))
+        return pool
+
+    # (a) top embedding: model roots are the six cube faces
+    L, n, mc = (1, 8, 3) if q else (2, 10, 4)
+    r = ctx.tlc("IndexIter", _ixiter_cfg("trans", L, 6, pool_for(L, 6, n, [0, 1, 1, L, L]), mc), workers=6, timeout=1800, heap="6g")
+    cases += r.tagged.get("CASE", [])
+    # (b) deep embedding: one root at level 30-L (model leaves are real leaf cells) or higher up
+    for rep in range(1 if q else 3):
+        L = 3
+        r = ctx.tlc("IndexIter", _ixiter_cfg("trans", L, 1, pool_for(L, 1, 8 if q else 10, [1, 2, 2, 3, 3]), 3 if q else 4),
+                    workers=6, timeout=1800, heap="6g")
+        deep = r.tagged.get("CASE", [])
+        alen = 27 if rep == 0 else rnd.choice([27, 12, 3, 0])
+        anchor = {"f": rnd.randrange(6), "p": [rnd.randrange(4) for _ in range(alen)]}
+        for c in deep:
+            c["anchor"] = anchor
+        cases += deep
+    # (c) long behaviours from a fresh iterator
+    for L, NF in ([(2, 2)] if q else [(2, 2), (2, 6), (3, 1)]):
+        r = ctx.tlc("IndexIter", _ixiter_cfg("walk", L, NF, pool_for(L, NF, 8, [0, 1, 2, 2]), 4, maxops=12 if q else 30),
+                    workers=1, simulate="num=%d" % (150 if q else 1500), depth=40, seed=ctx.seed * 10 + 3)
+        walks = r.tagged.get("CASE", [])
+        if NF == 1:
+            anchor = {"f": rnd.randrange(6), "p": [rnd.randrange(4) for _ in range(27)]}
+            for c in walks:
+                c["anchor"] = anchor
+        cases += walks
+    cases = _ops(_dedup(cases))
+    rnd.shuffle(cases)
+    ctx.log("index iterator cases: %d" % len(cases))
+    ctx.replay(cases, timeout=1800)
+    if cases and ctx.counters.get("ixiter_trans_several-cells", 0) == 0:
+        raise vlib.Infra("no index iterator transition on an index of several cells was replayed")
+
+
 def run_c06(ctx):
     run_iter(ctx)
     run_sir(ctx)
+    run_ixiter(ctx)
 
 
 # ---------------------------------------------------------------------------------- C08: queryQueue
